@@ -493,9 +493,9 @@ func runServerCase(cs *srvCase) (*srvTrace, error) {
 		log.cur.Store(int32(i))
 		st := step{Probe: probed && i == len(reqs)-1}
 		want := model.Step(req, facts)
-		if err := c.WritePacket(payload); err != nil {
-			st.Got = "closed"
-		}
+		// a write error means the server is gone; what it said before leaving
+		// (DISCONNECT) is still readable
+		c.WritePacket(payload)
 		for st.Got == "" {
 			p, err := c.ReadSkip(true)
 			if err != nil {
